@@ -243,6 +243,12 @@ func (ms MatrixSetup) MarshalYAML() (any, error) {
 
 // UnmarshalOrdered unmarshals from either []any or *ordered.MapSA.
 func (ms *MatrixSetup) UnmarshalOrdered(o any) error {
+	if o == nil {
+		// `setup: null` (which is also what an absent setup marshals to):
+		// no dimensions. Like ordered.Unmarshal does for nil, zero the value.
+		*ms = nil
+		return nil
+	}
 	if *ms == nil {
 		*ms = make(MatrixSetup)
 	}
@@ -341,6 +347,12 @@ func (maw MatrixAdjustmentWith) MarshalYAML() (any, error) {
 // UnmarshalOrdered unmarshals from either a scalar value (string, bool, or int)
 // or *ordered.MapSA.
 func (maw *MatrixAdjustmentWith) UnmarshalOrdered(o any) error {
+	if o == nil {
+		// `with: null` (which is also what an absent with marshals to):
+		// no values. Like ordered.Unmarshal does for nil, zero the value.
+		*maw = nil
+		return nil
+	}
 	if *maw == nil {
 		*maw = make(MatrixAdjustmentWith)
 	}
